@@ -149,9 +149,10 @@ def run_cases(binary, lines, tag):
                 if p.poll() is not None:
                     errtxt = p.stderr.read() if p.stderr else ''
                     if p.returncode != 0:
-                        if impl and (p.returncode < 0 or p.returncode in (134, 139)):
+                        if impl and (p.returncode < 0 or p.returncode in (101, 134, 139)):
                             # the implementation harness was killed by a signal inside one case (stack overflow from
-                            # unbounded recursion, abort): an observation like a panic, not an infrastructure failure
+                            # unbounded recursion, abort) or a panic escaped it (exit 101): an observation like a
+                            # panic, not an infrastructure failure
                             hung.append((path, sh_lines, 'CRASH'))
                             del live[path]
                             continue
